@@ -1,6 +1,6 @@
 (* The case interpreter of the correspondence check: one text line in, one canonical text line out.
    The Rust harness (`impldrv`) implements the same protocol on top of the real library. No proofs here. *)
-Require Import SD.Base SD.Text SD.Codes SD.Header SD.Name SD.RData SD.Packet SD.PktText.
+Require Import SD.Base SD.Text SD.Codes SD.Header SD.Name SD.RData SD.Packet SD.PktText SD.TextApi.
 From Coq Require Import String.
 Open Scope N_scope.
 
@@ -260,6 +260,97 @@ Definition run_rrmatch (args : list (list byte)) : list byte :=
   | _ => s2b "BADCASE"
   end.
 
+(* ---- text API cases (C17, C19, C15 escape) ---- *)
+Fixpoint bytes_leb (a b : list byte) : bool :=
+  match a, b with
+  | [], _ => true
+  | _ :: _, [] => false
+  | x :: a', y :: b' => let n := Byte.to_N x in let m := Byte.to_N y in if n <? m then true else if m <? n then false else bytes_leb a' b'
+  end.
+Fixpoint insert_attr (a : attr) (l : list attr) : list attr :=
+  match l with [] => [a] | x :: r => if bytes_leb (fst x) (fst a) then x :: insert_attr a r else a :: l end.
+Definition sort_attrs (l : list attr) : list attr := fold_right insert_attr [] l.
+Definition attr_toks (a : attr) : list (list byte) :=
+  match a with (k, Some v) => [bytes_to_hex k; s2b "V"; bytes_to_hex v] | (k, None) => [bytes_to_hex k; s2b "N"] end.
+Definition attrs_tok (m : list attr) : list byte :=
+  unwords (nat_tok (List.length m) :: List.concat (map attr_toks (sort_attrs m))).
+
+(* NAMENEW utf8-hex: Name::new, Display of the result, Name::new of that *)
+Definition run_namenew (args : list (list byte)) : list byte :=
+  match map hex_to_bytes args with
+  | [Some s] =>
+    if negb (valid_utf8 s) then s2b "BADCASE" else
+    match name_new s with
+    | Ok ls => unwords ([s2b "OK"] ++ name_toks ls ++ [s2b "|"; bytes_to_hex (join_dots ls); s2b "|";
+                       out_line (name_new (join_dots ls)) (fun l => unwords (name_toks l));
+                       s2b "|"] ++ name_toks (name_new_unchecked s))
+    | Err e => unwords ([err_line e; s2b "|"] ++ name_toks (name_new_unchecked s))
+    | Panic _ => s2b "PANIC" | OutOfFuel => s2b "HANG"
+    end
+  | _ => s2b "BADCASE"
+  end.
+(* SUFFIX nameA nameB: is_subdomain_of, without, is_link_local(A) *)
+Definition run_suffix (args : list (list byte)) : list byte :=
+  match r_name args with
+  | Some (a, rest) =>
+    match r_name rest with
+    | Some (b, []) =>
+      unwords [bool_tok (is_subdomain_of a b);
+               match without a b with Some c => unwords (s2b "S" :: name_toks c) | None => s2b "NONE" end;
+               bool_tok (is_link_local a)]
+    | _ => s2b "BADCASE" end
+  | None => s2b "BADCASE"
+  end.
+Definition run_cstrnew (args : list (list byte)) : list byte :=
+  match map hex_to_bytes args with
+  | [Some d] => out_line (cstr_new d) bytes_to_hex
+  | _ => s2b "BADCASE"
+  end.
+(* TXTTEXT utf8-hex: TXT::try_from(&str) then String::try_from(TXT) *)
+Definition run_txttext (args : list (list byte)) : list byte :=
+  match map hex_to_bytes args with
+  | [Some s] =>
+    if negb (valid_utf8 s) then s2b "BADCASE" else
+    match txt_of_text s with
+    | Ok strs => unwords (nat_tok (List.length strs) :: map bytes_to_hex strs ++ [s2b "|"; out_line (text_of_txt strs) bytes_to_hex])
+    | _ => s2b "ERR"
+    end
+  | _ => s2b "BADCASE"
+  end.
+(* TXTATTR n hex...: attributes(), long_attributes(), String::try_from on a TXT holding these strings *)
+Definition run_txtattr (args : list (list byte)) : list byte :=
+  match r_counted r_bytes args with
+  | Some (strs, []) =>
+    if forallb (fun s => len s <=? 255) strs then
+      unwords [attrs_tok (attributes strs); s2b "|"; out_line (long_attributes strs) attrs_tok; s2b "|";
+               out_line (text_of_txt strs) bytes_to_hex]
+    else s2b "BADCASE"
+  | _ => s2b "BADCASE"
+  end.
+(* ATTRMAP n {key (N | V value)}...: TXT from a map, attributes() of it *)
+Definition r_attr : reader attr :=
+  fun ts => match r_bytes ts with
+            | Some (k, t :: r) =>
+              if tok_eqb t "N" then Some ((k, None), r)
+              else if tok_eqb t "V" then match r_bytes r with Some (v, r') => Some ((k, Some v), r') | None => None end
+              else None
+            | _ => None end.
+Definition run_attrmap (args : list (list byte)) : list byte :=
+  match r_counted r_attr args with
+  | Some (m, []) =>
+    match txt_of_attrs m with
+    | Ok strs => s2b "OK " ++ attrs_tok (attributes strs)
+    | Err e => s2b "ERR" | Panic _ => s2b "PANIC" | OutOfFuel => s2b "HANG"
+    end
+  | _ => s2b "BADCASE"
+  end.
+Definition run_escape (args : list (list byte)) : list byte :=
+  match map hex_to_bytes args with
+  | [Some s] => if negb (valid_utf8 s) then s2b "BADCASE" else
+                unwords [bytes_to_hex (escape_name s); bytes_to_hex (unescape_name (escape_name s)); bytes_to_hex (unescape_name s)]
+  | _ => s2b "BADCASE"
+  end.
+
 Definition run_line (line : list byte) : list byte :=
   match tokens line with
   | [] => []
@@ -275,6 +366,13 @@ Definition run_line (line : list byte) : list byte :=
     else if tok_eqb cmd "RR" then run_rr args
     else if tok_eqb cmd "BUILD" then run_build args
     else if tok_eqb cmd "RT" then run_rt args
+    else if tok_eqb cmd "NAMENEW" then run_namenew args
+    else if tok_eqb cmd "SUFFIX" then run_suffix args
+    else if tok_eqb cmd "CSTRNEW" then run_cstrnew args
+    else if tok_eqb cmd "TXTTEXT" then run_txttext args
+    else if tok_eqb cmd "TXTATTR" then run_txtattr args
+    else if tok_eqb cmd "ATTRMAP" then run_attrmap args
+    else if tok_eqb cmd "ESCAPE" then run_escape args
     else if tok_eqb cmd "REPARSE" then run_reparse args
     else if tok_eqb cmd "BUILDW" then run_buildw args
     else if tok_eqb cmd "PEEK" then run_peek args
